@@ -232,6 +232,8 @@ func VH_C04_EventColumns() {
 		{"one\\Ntwo, three", [][]string{{"one"}, {"two, three"}}, [][]string{{""}, {""}}},
 		{"{\\i1}it{\\i0} rest\\nnext", [][]string{{"it", " rest"}, {"next"}}, [][]string{{"{\\i1}", "{\\i0}"}, {""}}},
 		{"pre{\\b1}bold", [][]string{{"pre", "bold"}}, [][]string{{"", "{\\b1}"}}},
+		{"{\\an8}{\\i1}two blocks", [][]string{{"", "two blocks"}}, [][]string{{"{\\an8}", "{\\i1}"}}},
+		{"a{\\b1}{\\i1}b{\\b0}", [][]string{{"a", "", "b", ""}}, [][]string{{"", "{\\b1}", "{\\i1}", "{\\b0}"}}},
 	}
 	tx := texts[k%len(texts)]
 	var row []string
